@@ -1441,8 +1441,13 @@ def check_oracles(w):
         det = {"tunnel_end": te, "open_flows": len(w.prox["c"]), "loop_of_that_end": w.post_crash[side],
                "loop_of_the_other_end": w.post_crash[other]}
         how = w.post_crash[side]
+        # the client's loop is `while 1`: once its multiplexer has stopped (end of stream, EXIT) the only ways out are
+        # the Fatal of its ssh check and — since runonce asks the stopped multiplexer for its wait set again (F160
+        # repair) — the Fatal "socket was not used by any handler" on the still-readable tunnel; both end the session
+        # in an orderly way (the helper's channel is closed in the finally block).  Any OTHER exception is a violation.
+        orderly = side == "c" and how == "Fatal"
         if te["kind"] == "eof":
-            if how:
+            if how and not orderly:
                 out["C08"].append(("the peer closed the tunnel while flows were open: the main loop ended through %s "
                                    "instead of noticing the end of the stream" % how, det))
             elif inpipe.eof_reads and w.mux[side].ok:
@@ -1454,7 +1459,7 @@ def check_oracles(w):
             elif how not in (None, "Fatal"):
                 out["C08"].append(("reading the tunnel failed with errno %d: the main loop ended through %s instead of "
                                    "Fatal" % (te["errno"], how), det))
-        elif how:
+        elif how and not orderly:
             out["C08"].append(("the peer's EXIT message made the main loop end through %s" % how, det))
         if w.post_crash[other]:
             out["C08"].append(("the tunnel ended at one end and the main loop of the OTHER end died: %s"
